@@ -470,6 +470,10 @@ def run(F, R, config=None):
     from . import c06
     K.borrow_rule(R, lambda sub: c06.r3(F, sub), "C09-R8", "in the final step-size window the transformation is frozen: every transformation mutator called from adapt() "
                   "executes only where `draw < self.<final window>` holds on every path (C06-R3 analysis, path-sensitive for phase enums)", only_rules={"C06-R3"})
+    # "the first transformation change re-runs the step-size search": the search itself (C07-R5/R6) and what it hands to the estimator
+    from . import c07
+    K.borrow_rule(R, lambda sub: c07.r5_r6(F, sub), "C09-R9", "the step-size search that is re-run at the first transformation change is the mirrored doubling / halving "
+                  "search and both directions restart the estimator from the step size it found (C07-R5 / R6 analysis)", only_rules={"C07-R5", "C07-R6"})
     R.info("C09", "final window (only the step size adapts, symmetric statistic) is also decided by C06-R4 / C07-R4")
     R.assume("window arithmetic (off-by-one in counts) is a value question and not decided")
 
